@@ -79,6 +79,8 @@ def context(tag, attr, node):
 
 
 def pick_values(rng, tag, attr, typ):
+    if typ == "color":
+        return "#ff0000", "#123456"      # fixed: the matrix does not depend on the generator's colour pool; "#abc" has cells of its own
     vals = []
     for _ in range(12):
         v = docgen.typed_value(rng, attr, typ)
@@ -146,9 +148,12 @@ def matrix(ck, hb, facts):
                 continue
             import random as _random
             v, w = pick_values(_random.Random("%s/%s" % (tag, attr)), tag, attr, typ)   # fixed per cell: the matrix does not depend on the seed
-            for ctx in ([False, True] if tag in PARENT_CTX else [False]):
+            variants = [(False, False)] + ([(True, False)] if tag in PARENT_CTX else []) + ([(False, True)] if typ == "color" else [])
+            for ctx, short in variants:
                 wrap = (lambda d: with_parent(d, tag)) if ctx else (lambda d: d)
-                name = tag + "@parent" if ctx else tag
+                name = tag + "@parent" if ctx else (tag + "#short-hex" if short else tag)
+                if short:       # three-digit hex colours: a component that normalises the value on one route only treats sources differently
+                    v, w = "#abc", "#DeF"
                 base = wrap(place(tag, (lambda n: (context(tag, attr, n), n)[1])(N(tag))))
                 jobs.append({"id": len(jobs), "src": docgen.to_mjml(base)})
                 meta.append((name, attr, "base", v, w))
@@ -223,6 +228,8 @@ def run(ck):
     for (t, a), k in list(known.items()):
         if t in PARENT_CTX:
             known.setdefault((t + "@parent", a), k)
+        if "#" not in t and "@" not in t:
+            known.setdefault((t + "#short-hex", a), k)
     announced = set()
     pred = predicted_bad(facts)
     failing = []
